@@ -51,7 +51,7 @@ def retriable (c : Code) : Bool :=
   Gen.temporaryCodes.contains c ||
   Gen.transientNet.any (fun t => parseCode t == some c) ||
   c == 1005 ||
-  -- wire runs only: an unnamed transport error after which the Writer retried (see go/cmd/writer renderEvents)
+  -- an error without a name of its own that declares itself Temporary() (hook token "othertmp")
   c == 1006
 
 def idOf (pre : String) (s : String) : Option Nat :=
@@ -278,7 +278,18 @@ def predict (sc : Scenario) (obs : Obs) (evs : List String) (s : State) : String
     | none => [])).eraseDups
   let shapes := sortBy (fun (a b : String) => a < b)
     (ids.map (fun k => k ++ ":" ++ (match findMsg sc.calls k with | some d => d.2.2.shape | none => "?")))
-  s!"ret {orDash rets} | log {orDash logs} | cb {orDash (cbs.map (fun x => x.1 ++ " " ++ x.2))} | unsent 0 | multi 0 | stuck 0 | stats {predictStats s evs} | early 0 | shapes {orDash shapes}"
+  -- Completion(nil) hands out the messages with Topic / Partition / Offset of the acknowledged copy: the LAST copy of the
+  -- batch in its partition's log (no attempt follows an acknowledged one)
+  let lastIdx (l : List LogEntry) (m : Msg) : Nat :=
+    ((l.zipIdx).foldl (fun acc x => if x.1.msg == m then x.2 else acc) 0)
+  let wheres := sortBy (fun (a b : String) => a < b) (s.batchIds.flatMap (fun b =>
+    match s.batches b with
+    | some B =>
+      if B.ncompl ≥ 1 && B.cbCode == some 0 then
+        B.msgs.map (fun m => s!"{msgKey sc m.msg}:{B.tp.1}/{B.tp.2}@{lastIdx (s.log B.tp) m.msg}")
+      else []
+    | none => []))
+  s!"ret {orDash rets} | log {orDash logs} | cb {orDash (cbs.map (fun x => x.1 ++ " " ++ x.2))} | unsent 0 | multi 0 | stuck 0 | stats {predictStats s evs} | early 0 | shapes {orDash shapes} | where {orDash wheres}"
 
 /-- the fake broker's journal, from the environment events of the trace -/
 def journalOf (evs : List String) : List JReq :=
@@ -295,7 +306,21 @@ def parseShapes (x : String) : Option (List (String × String)) :=
     | [k, sh] => some (k, sh)
     | _ => none)
 
-def parseObs8 (rets logs cbs unsent multi stuck stats early : String) (shapes : List (String × String)) : Option Obs := do
+def parseWheres (x : String) : Option (List (String × (String × Int) × Nat)) :=
+  let b := (((x.drop "where".length).toString).trimAscii).toString
+  if b == "-" then some [] else (b.splitOn ";").mapM (fun e =>
+    match e.splitOn ":" with
+    | [k, loc] =>
+      match loc.splitOn "@" with
+      | [tp, off] =>
+        match tp.splitOn "/" with
+        | [t, p] => do some (k, (t, ← p.toInt?), ← off.toNat?)
+        | _ => none
+      | _ => none
+    | _ => none)
+
+def parseObs8 (rets logs cbs unsent multi stuck stats early : String) (shapes : List (String × String))
+    (wheres : List (String × (String × Int) × Nat) := []) : Option Obs := do
     let body (pre x : String) : String := ((x.drop pre.length).toString.trimAscii).toString
     let rt := body "ret" rets
     let rets ← (if rt == "-" then some [] else (rt.splitOn ";").mapM (fun r =>
@@ -317,13 +342,15 @@ def parseObs8 (rets logs cbs unsent multi stuck stats early : String) (shapes : 
       | _ => none))
     let num (pre x : String) : Option Nat := (body pre x).toNat?
     some { rets := rets, logs := logs, cbs := cbs, unsent := ← num "unsent" unsent, multi := ← num "multi" multi, stuck := ← num "stuck" stuck,
-           stats := body "stats" stats, early := ← num "early" early, shapes := shapes }
+           stats := body "stats" stats, early := ← num "early" early, shapes := shapes, wheres := wheres }
 
 def parseObs (s : String) : Option Obs :=
   match s.splitOn " | " with
   | [rets, logs, cbs, unsent, multi, stuck, stats, early] => parseObs8 rets logs cbs unsent multi stuck stats early []
   | [rets, logs, cbs, unsent, multi, stuck, stats, early, shapes] => do
     parseObs8 rets logs cbs unsent multi stuck stats early (← parseShapes shapes)
+  | [rets, logs, cbs, unsent, multi, stuck, stats, early, shapes, wheres] => do
+    parseObs8 rets logs cbs unsent multi stuck stats early (← parseShapes shapes) (← parseWheres wheres)
   | _ => none
 
 def answer (model : String) (holds : Bool) : String :=
